@@ -372,7 +372,7 @@ def eng_control_random(mon, triggers, relevant=CTL_OPS | DATA_OPS, nq=250, nt=60
 def eng_deadline_probes(mods, mon, tag):
     def eng(ctx):
         phases = list(range(0, 100, 7)) + [99] if not ctx.thorough else list(range(100))
-        cases = seeded(gen.deadline_probe_cases(phases, ackdls=(0, 5, 11) if not ctx.thorough else (0, 1, 5, 9, 10, 11, 15, 600),
+        cases = seeded(gen.deadline_probe_cases(phases, ackdls=(0, 5, 11, 700) if not ctx.thorough else (0, 1, 5, 9, 10, 11, 15, 600, 700, 3600),
                                                 mods=mods, prefix=tag,
                                                 gaps=(40, 70) if not ctx.thorough else (10, 40, 70, 95)))
         return ctx.seq(tag, cases, relevant=DATA_OPS, triggers={"PULL"}, monitor=mon)
@@ -561,8 +561,12 @@ def eng_pull_limit(ctx):
 
 def eng_id_lists(mon, kinds):
     def eng(ctx):
-        cases = [c for c in gen.id_list_cases() if c[0].split("-")[1] in kinds]
-        return ctx.seq("id-lists", cases, relevant=DATA_OPS, triggers={"ACK", "MOD", "SS", "SR"}, monitor=mon)
+        cases = [(c, gen.with_drain(o)) for c, o in gen.id_list_cases() if c.split("-")[1] in kinds]
+
+        def mon2(ops, lines):
+            # what the request left untouched must still come back: the loss reading of the drain epilogue
+            return mon(ops, lines) or M.mon_fanout(ops, lines)
+        return ctx.seq("id-lists", cases, relevant=DATA_OPS, triggers={"ACK", "MOD", "SS", "SR"}, monitor=mon2)
     eng.__name__ = "eng_id_lists"
     return eng
 
@@ -586,7 +590,8 @@ reg("C02", [eng_id_lists(M.mon_ack_final, ("ack", "sack", "sackmod")), eng_data_
 reg("C03", [eng_data_random(M.mon_exclusive, {"PULL"}, tag="data-random"),
             eng_data_random(M.mon_exclusive, {"SR", "PULL"}, streams=True, tag="data-stream-random"),
             eng_data_enum(M.mon_exclusive, {"PULL"}),
-            eng_deadline_probes((None,), M.mon_exclusive, "lease-probes"), eng_modify_batches],
+            eng_deadline_probes((None,), M.mon_exclusive, "lease-probes"), eng_modify_batches,
+            lambda ctx: eng_abandon(ctx)],
     rule="random scripts with pulls of several sizes, nacks, expiry and streams on one subscription; exhaustive short "
          "sequences; lease-probes: two leases handed out 40/70 ms apart at every phase of the 100 ms deadline grid, a "
          "third consumer pulling 1 ms before, at and 1 ms after each deadline. non-trivial = contains a Pull/stream response with at least one message",
@@ -1156,7 +1161,7 @@ def eng_abandon(ctx):
             continue
         if len(out) >= 3:
             continue
-        why = M.mon_abandon(ops, res)
+        why = M.mon_abandon(ops, res) or M.mon_exclusive(ops, res)
         first = next((i for i in range(min(len(res), len(ma))) if i != idx and
                       norm_for(ops[i], res[i]) != norm_for(ops[i], ma[i]) and
                       (i >= len(mb) or norm_for(ops[i], res[i]) != norm_for(ops[i], mb[i]))), None)
@@ -1240,6 +1245,11 @@ reg("C07", [eng_burst, eng_abandon, eng_pull_limit],
                "fairness of the tokio scheduler (an enabled step is eventually taken) is assumed, not modelled.")
 
 
+def eng_requeue_order(ctx):
+    cases = gen.requeue_order_cases()
+    return ctx.seq("requeue-order", cases, relevant=DATA_OPS, triggers={"PULL"}, monitor=M.mon_order, always_monitor=True)
+
+
 def eng_orderstress(ctx):
     """Multi-thread runtime: concurrent publishers to one topic with two subscriptions, each round drained; ids per
     Publish and first-delivery order are checked by the harness itself (harness/src/orderstress.rs).  A stress
@@ -1273,7 +1283,7 @@ def eng_concurrent_publish(ctx):
 
 reg("C08", [eng_data_random(M.mon_order, {"PUB"}, streams=True, tag="data-stream-random"),
             eng_data_enum(M.mon_order, {"PUB"}), eng_concurrent_publish,
-            eng_wait_random(M.mon_order, {"PUB"}), eng_orderstress],
+            eng_wait_random(M.mon_order, {"PUB"}), eng_orderstress, eng_requeue_order],
     rule="random and exhaustive sequential scripts (ids, first deliveries, redeliveries out of order); "
          "concurrent-publish: 2-6 Publish calls to one topic started without letting the runtime settle (seeded), two "
          "subscriptions, one stream and pulls of several sizes, a nack in between - ids and first-delivery order are "
